@@ -195,6 +195,23 @@ def multiple_likelihood_posterior(c, config, m=2, n=2):
     c.eq('gradient_is_derivative_of_own_logd', g, c.grad_of(lambda v: P.logd(v), x), tol=1e-4)
 
 
+def gallery(c, member):
+    """shipped gallery distributions: the gradient handed out is the derivative of the member's own log-density (central differences at generated points spread
+    over the region where the member has mass, incl. between the modes of the mixture; bounded stand-in: native), or the call is refused"""
+    from cuqi.distribution import DistributionGallery
+    d = DistributionGallery(member)
+    pts = [np.array([c.real(f'p{k}_0', lo=-3, hi=3), c.real(f'p{k}_1', lo=-3, hi=3)]) for k in range(6)]
+    if member == 'mixture': pts += [np.array([-2.0, 0.5]), np.array([-1.8, 0.0]), np.array([0.0, 0.0])]
+    for k, x in enumerate(pts):
+        try: g = np.asarray(d.gradient(x), dtype=float).ravel()
+        except (NotImplementedError, AttributeError):
+            c.holds('gradient_refused', True); return
+        h = 1e-6
+        fd = np.array([(d.logd(x + h * e) - d.logd(x - h * e)) / (2 * h) for e in np.eye(2)]).ravel()
+        if not (np.all(np.isfinite(fd)) and np.all(np.isfinite(g))): continue
+        c.holds(f'gradient_is_derivative_of_own_logd[{k}]', bool(np.allclose(g, fd, rtol=1e-4, atol=1e-5 * (1 + np.max(np.abs(fd))))), note=f"at {x}: gradient {g} vs central differences {fd}")
+
+
 def reassignment_history(c, kind, n=3):
     """gradient, then assign new parameter values to the SAME object, then gradient again: still the derivative of the
     object's current log-density (no stale intermediate results survive a parameter change)"""
@@ -289,6 +306,8 @@ def jobs(tier):
     for kind in ('Gaussian:cov', 'Gaussian:prec', 'GMRF', 'CMRF', 'Cauchy', 'conditional_GMRF'):
         J.append(Job(f'history:gradient_after_parameter_reassignment:{kind}', lambda c, k=kind: reassignment_history(c, k), 'Pbox', Dg, rtol=1e-4))
     J.append(Job('UserDefinedDistribution.gradient', userdefined, 'Pbox', [f'{D}._custom:UserDefinedDistribution.gradient']))
+    for member in ('CalSom91', 'BivariateGaussian', 'funnel', 'mixture', 'squiggle', 'donut'):
+        J.append(Job(f'DistributionGallery.gradient:{member}', lambda c, m_=member: gallery(c, m_), 'B', [f'{D}._custom:DistributionGallery.__init__', f'{D}._custom:DistributionGallery._mixture_grad_func'], nnum=3))
     for cfg in ('two_data_likelihoods', 'data_and_user_defined_likelihood', 'user_defined_first', 'three_likelihoods'):
         J.append(Job(f'MultipleLikelihoodPosterior.gradient:sum_over_all_densities:{cfg}', lambda c, cfg=cfg: multiple_likelihood_posterior(c, cfg), 'Pbox',
                      [f'{D}._joint_distribution:MultipleLikelihoodPosterior.gradient', 'cuqi.likelihood._likelihood:UserDefinedLikelihood.gradient'], rtol=1e-4, timeout=300))
